@@ -345,7 +345,7 @@ func GenR(rng *Rng, prop string, tier string) *RScript {
 			p.PreTarget = c.Pre && rng.Pct(50)
 			if !p.PreTarget && rng.Pct(30) {
 				p.Late = rng.Range(1, 3)
-				if prop == "C02" && rng.Pct(25) {
+				if (prop == "C02" && rng.Pct(25)) || (prop == "C06" && rng.Pct(60)) {
 					// the downstream id is not learned within the retry budget: nothing naming the partition may be emitted
 					p.Late = 80
 				}
